@@ -1787,8 +1787,12 @@ def inline_helpers(fn, depth=2, max_lines=60, keep=()):
         if d <= 0:
             return out
         name = args = None
+        recv = None
         if out.get("k") == "MethodCall" and ident(strip(out["recv"])) == "self":
             name, args = out["method"], out["args"]
+        elif out.get("k") == "MethodCall" and ident(strip(out["recv"])):
+            # `other.helper(..)`: only a *private* method of a type defined in this file, found by its unique name
+            name, args, recv = out["method"], out["args"], strip(out["recv"])
         elif out.get("k") == "Call":
             segs = path_segs(out["func"])
             if segs and (len(segs) == 1 or (len(segs) == 2 and segs[0] == "Self")):
@@ -1798,6 +1802,10 @@ def inline_helpers(fn, depth=2, max_lines=60, keep=()):
         callee = _same_file_fn(cur, name)
         if callee is None or callee is cur or not callee.get("body") or (callee["body"].get("le", 0) - callee["body"].get("ln", 0)) > max_lines:
             return out
+        if recv is not None:
+            takes_self = bool(callee["sig"]["inputs"]) and "self" in callee["sig"]["inputs"][0]
+            if not takes_self or callee.get("vis") or (callee.get("_owner") or {}).get("trait"):
+                return out
         params = [binding_name(i["pat"]) for i in callee["sig"]["inputs"] if isinstance(i, dict) and "pat" in i]
         if len(params) != len(args) or None in params:
             return out
@@ -1806,9 +1814,19 @@ def inline_helpers(fn, depth=2, max_lines=60, keep=()):
             a2 = strip(a)
             if a2 is not None and ident(a2) != p and not any(x.get("k") in ("Closure", "Block", "Macro") for x in walk(a2)):
                 body = _subst(body, p, a2)
+        if recv is not None:
+            body = _subst(body, "self", recv)
         body = expand(body, callee, d - 1)
         body = dict(body)
         body["_inlined"] = name
         return body
 
     return expand(fn["body"], fn, depth)
+
+
+def unblock(e):
+    """`{ expr }` -> expr (a block that only wraps one tail expression), else e"""
+    e = strip(e) if isinstance(e, dict) else e
+    while isinstance(e, dict) and e.get("k") == "Block" and len(e.get("stmts", [])) == 1 and e["stmts"][0].get("k") == "ExprStmt" and not e["stmts"][0].get("semi", True):
+        e = strip(e["stmts"][0]["e"])
+    return e
